@@ -55,7 +55,8 @@ RULE = ("systematic: rule sets of size 1-4 (thorough 1-5) x every position of th
 
 def main(run):
     return engine_check(run, PID, ENTRIES_P, make_cases, RULE,
-                        ["the stop tag is written only by rules of the call (and optionally set before the call: c_stop0)"])
+                        ["the stop tag is written only by rules of the call (and optionally set before the call: c_stop0)"],
+                        after=lambda r: pool_wrappers_part(r, PID, ['ExecuteWithStopTagDirect', 'ExecuteMixModelWithStopTagDirect', 'ExecuteSelectedRulesWithControlAndStopTag', 'ExecuteSelectedRulesWithControlAndStopTagAsGivenSortedName']))
 
 
 def replay(run, data):
